@@ -41,4 +41,17 @@ Expected(c) == CASE c = "nonpb" -> "same"
 KindOf(r) == CASE r = "file" -> "bytes" [] r \in {"dir", "hamtdir", "linkmap"} -> "map" [] OTHER -> "any"
 IsADLResult(r) == r \in {"file", "dir", "hamtdir", "linkmap"}
 
+(***************************************************************************)
+(* Beyond the listed properties: the generic ipld Node method contract of  *)
+(* the reified nodes (datamodel.Node documentation): scalar accessors of   *)
+(* another kind fail, a bytes node has no iterators and reports length -1, *)
+(* a map node has a map iterator and no list iterator, nothing is null or  *)
+(* absent.  `a` is the record of observed outcomes.                        *)
+(***************************************************************************)
+ADLCommonOK(a) == /\ a.asbool = "err" /\ a.asint = "err" /\ a.asfloat = "err" /\ a.asstring = "err" /\ a.aslink = "err"
+                  /\ ~a.isnull /\ ~a.isabsent /\ a.listiter = "nil" /\ a.idx0 = "err"
+ADLBytesOK(a) == ADLCommonOK(a) /\ a.asbytes = "ok" /\ a.mapiter = "nil"
+ADLBytesLength(a) == a.len = -1
+ADLMapOK(a) == ADLCommonOK(a) /\ a.asbytes = "err" /\ a.mapiter = "non" /\ a.len >= 0
+
 =============================================================================
